@@ -80,7 +80,15 @@ def classify(ctx, f, g, tree_l, got, ref, text):
         if alt == ref:
             return KF_FORALL_DROPPED
     if any(q[0] == "int_q" for q in R2.subformulas(f)) and got in (True, False):
-        return KF_NUMQ
+        # emulation on the reference side: with the numeric variable ranging over all integers (ISLa's current reading,
+        # witnesses such as -1 have no numeral), does the specification's evaluator give ISLa's verdict?
+        R2.INT_DOMAIN_ALL = True
+        try:
+            alt = R2.evaluate_ref(f, to_dt(tree_l))
+        finally:
+            R2.INT_DOMAIN_ALL = False
+        if alt == got:
+            return KF_NUMQ
     if any(q[0] in ("forall", "exists") and q[4] for q in R2.subformulas(f)):
         # epsilon encoding: does ISLa agree with R2 on the parser's encoding of the same derivation?
         alt = isla_eval(ctx, text, to_dt(eps_reencode(tree_l, "empty")), g)
